@@ -259,7 +259,7 @@ pub fn run(ctx: &Ctx) -> Report {
     rep.need("invalid_handshakes_judged", 300);
     rep.need("own_handshakes_checked", 500);
     let mut r = ctx.rng("c08");
-    let n = ctx.count(3_000, 60_000);
+    let n = ctx.count(9_000, 90_000);
     for k in 0..n {
         let seed = ctx.scenario_seed(r.next());
         let mut sr = Rng::new(seed);
